@@ -31,6 +31,10 @@ pub fn generate(tier: &str, rng: &mut Rng) -> Vec<String> {
     for _ in 0..n / 5 {
         out.push(gen_dec_valid(rng, true).line());
     }
+    // one frame above 64 KiB with more frames behind it in the same chunk (seed C07f)
+    for i in 0..(if thorough { 600 } else { 60 }) {
+        out.push(gen_dec_big(rng, i % 3 != 0).line());
+    }
     // ---- hostile input for the real prost decoder (rev1 S1 / M1 / M5, seed C07c) ----
     // corpus: a length varint cut off by the end of the payload, more frames behind it in the same
     // chunk (reading past the payload's end must not happen); the same as the last frame of the
